@@ -1,6 +1,8 @@
 """Generate / drive / validate for the pure part of the specification
 (GwfDefs): used by C01, C02, C05 (API level) and by the CLI-level drivers."""
+import collections
 import json
+import types
 import os
 import random
 import shutil
@@ -58,7 +60,7 @@ NAME_PERMS = [
     {"A": "t9", "B": "t10", "C": "T1", "D": "_t"},
 ]
 
-SHAPES = ["list", "str", "nested", "dict", "dictE", "tuple", "gen"]
+SHAPES = ["list", "str", "nested", "dict", "dictE", "tuple", "gen", "mapview", "chainmap"]
 
 
 def shape(paths, kind):
@@ -80,7 +82,23 @@ def shape(paths, kind):
         return d
     if kind == "gen":
         return [tuple(paths[:1]), list(paths[1:])] if paths else [(), []]
+    # mappings that are not dicts (read-only view of named outputs, merged named outputs): the values are the files
+    if kind == "mapview":
+        return types.MappingProxyType({"k%d" % i: p for i, p in enumerate(paths)})
+    if kind == "chainmap":
+        return collections.ChainMap({"k%d" % i: p for i, p in enumerate(paths) if i % 2 == 0},
+                                    {"k%d" % i: [p] for i, p in enumerate(paths) if i % 2 == 1})
     raise ValueError(kind)
+
+
+def shape_src(paths, kind):
+    """Python source text that evaluates to shape(paths, kind) in a workflow file."""
+    v = shape(paths, kind)
+    if kind == "mapview":
+        return "__import__('types').MappingProxyType(%r)" % (dict(v),)
+    if kind == "chainmap":
+        return "__import__('collections').ChainMap(%s)" % ", ".join(repr(m) for m in v.maps)
+    return repr(v)
 
 
 class DictFS:
